@@ -42,6 +42,7 @@ from jedi.inference.compiled.subprocess import functions
 from jedi.inference.compiled.access import DirectObjectAccess, AccessPath, \
     SignatureParam
 from jedi.api.exceptions import InternalError
+from jedi import _verif
 
 if TYPE_CHECKING:
     from jedi.inference import InferenceState
@@ -101,6 +102,8 @@ def _cleanup_process(process, thread):
         except OSError:
             # Raised if the stream is broken.
             pass
+    if _verif.ON:
+        _verif.trace('Cleanup', hpid=process.pid, returncode=process.returncode)
 
 
 class _InferenceStateProcess:
@@ -219,6 +222,9 @@ class InferenceStateSubprocess(_InferenceStateProcess):
         return obj
 
     def __del__(self):
+        if _verif.ON:
+            _verif.trace('Del', sub=id(self._compiled_subprocess), isid=self._inference_state_id,
+                         used=self._used, crashed=self._compiled_subprocess.is_crashed)
         if self._used and not self._compiled_subprocess.is_crashed:
             self._compiled_subprocess.delete_inference_state(self._inference_state_id)
 
@@ -269,6 +275,8 @@ class CompiledSubprocess:
             stderr=subprocess.PIPE,
             env=self._env_vars
         )
+        if _verif.ON:
+            _verif.trace('Spawn', sub=id(self), hpid=process.pid)
         self._stderr_queue = queue.Queue()
         self._stderr_thread = t = Thread(
             target=_enqueue_output,
@@ -292,6 +300,8 @@ class CompiledSubprocess:
             except IndexError:
                 break
             else:
+                if _verif.ON:
+                    _verif.trace('DrainPop', sub=id(self), isid=delete_id)
                 self._send(delete_id, None)
 
         assert callable(function)
@@ -302,9 +312,14 @@ class CompiledSubprocess:
 
     def _kill(self):
         self.is_crashed = True
+        if _verif.ON:
+            _verif.trace('Kill', sub=id(self))
         self._cleanup_callable()
 
     def _send(self, inference_state_id, function, args=(), kwargs={}):
+        if _verif.ON:
+            _verif.trace('SendBegin', sub=id(self), isid=inference_state_id,
+                         fn=getattr(function, '__name__', None), crashed=self.is_crashed)
         if self.is_crashed:
             raise InternalError("The subprocess %s has crashed." % self._executable)
 
@@ -312,13 +327,19 @@ class CompiledSubprocess:
         try:
             pickle_dump(data, self._get_process().stdin, PICKLE_PROTOCOL)
         except BrokenPipeError:
+            if _verif.ON:
+                _verif.trace('BrokenPipe', sub=id(self))
             self._kill()
             raise InternalError("The subprocess %s was killed. Maybe out of memory?"
                                 % self._executable)
 
+        if _verif.ON:
+            _verif.trace('Dumped', sub=id(self))
         try:
             is_exception, traceback, result = pickle_load(self._get_process().stdout)
         except EOFError as eof_error:
+            if _verif.ON:
+                _verif.trace('EOF', sub=id(self))
             try:
                 stderr = self._get_process().stderr.read().decode('utf-8', 'replace')
             except Exception as exc:
@@ -333,6 +354,8 @@ class CompiledSubprocess:
                 ))
 
         _add_stderr_to_debug(self._stderr_queue)
+        if _verif.ON:
+            _verif.trace('Loaded', sub=id(self), is_exception=bool(is_exception))
 
         if is_exception:
             # Replace the attribute error message with a the traceback. It's
@@ -361,6 +384,9 @@ class CompiledSubprocess:
         # better solution to move all of this into a thread. However, the memory
         # usage of a single inference_state shouldn't be that high.
         self._inference_state_deletion_queue.append(inference_state_id)
+        if _verif.ON:
+            _verif.trace('Enqueue', sub=id(self), isid=inference_state_id,
+                         qlen=len(self._inference_state_deletion_queue))
 
 
 class Listener:
@@ -417,6 +443,8 @@ class Listener:
                 environment=InterpreterEnvironment()
             )
             self._inference_states[inference_state_id] = inference_state
+            if _verif.ON:
+                _verif.trace('HCreate', isid=inference_state_id)
         return inference_state
 
     def _run(self, inference_state_id, function, args, kwargs):
@@ -427,6 +455,8 @@ class Listener:
             # in `InferenceStateSubprocess.__init__` regarding potential race
             # conditions.
             del self._inference_states[inference_state_id]
+            if _verif.ON:
+                _verif.trace('HDelete', isid=inference_state_id)
         else:
             inference_state = self._get_inference_state(function, inference_state_id)
 
@@ -457,11 +487,16 @@ class Listener:
                 # It looks like the parent process closed.
                 # Don't make a big fuss here and just exit.
                 exit(0)
+            if _verif.ON:
+                _verif.mark_helper()
+                _verif.trace('HRecv', isid=payload[0], fn=getattr(payload[1], '__name__', None))
             try:
                 result = False, None, self._run(*payload)
             except Exception as e:
                 result = True, traceback.format_exc(), e
 
+            if _verif.ON:
+                _verif.trace('HReply', is_exception=result[0], nstates=len(self._inference_states))
             pickle_dump(result, stdout, PICKLE_PROTOCOL)
 
 
